@@ -50,3 +50,66 @@ Proof.
   intros k. unfold shift_spectrum. replace (-2 * PI * (INR k / (INR n * dt)) * 0) with 0 by ring.
   unfold cis. rewrite cos_0, sin_0. apply Cmult_1_l.
 Qed.
+
+(* ---- two-dimensional shift (rotate_matrix) -------------------------------- *)
+Lemma cis_period_Z x (k : Z) : cis (x + 2 * IZR k * PI) = cis x.
+Proof.
+  destruct k as [|p|p].
+  - simpl. f_equal. ring.
+  - replace (IZR (Z.pos p)) with (INR (Pos.to_nat p)) by (rewrite INR_IZR_INZ, positive_nat_Z; reflexivity).
+    apply cis_period.
+  - replace x with ((x + 2 * IZR (Z.neg p) * PI) + 2 * INR (Pos.to_nat p) * PI) at 2.
+    + rewrite cis_period. reflexivity.
+    + rewrite INR_IZR_INZ, positive_nat_Z. change (Z.neg p) with (- Z.pos p)%Z. rewrite opp_IZR. ring.
+Qed.
+
+Lemma fftfreq_idx_cases n k : fftfreq_idx n k = Z.of_nat k \/ fftfreq_idx n k = (Z.of_nat k - Z.of_nat n)%Z.
+Proof. unfold fftfreq_idx. destruct (_ <? _)%nat; auto. Qed.
+
+(* for a whole number m of grid steps the signed index and the plain index give the same phase *)
+Lemma rotate_phase_index n k (m : Z) : (0 < n)%nat ->
+  cis (- 2 * PI * (IZR (fftfreq_idx n k) / (2 * PI)) * (IZR m * (2 * PI / INR n)))
+  = cis (- 2 * PI * IZR m * INR k / INR n).
+Proof.
+  intros Hn. assert (Hn0 : INR n <> 0) by (apply not_0_INR; lia).
+  pose proof PI_neq0 as Hpi.
+  destruct (fftfreq_idx_cases n k) as [E|E]; rewrite E.
+  - rewrite <- INR_IZR_INZ. f_equal. field. split; assumption.
+  - rewrite minus_IZR, <- !INR_IZR_INZ.
+    replace (-2 * PI * ((INR k - INR n) / (2 * PI)) * (IZR m * (2 * PI / INR n)))
+      with (-2 * PI * IZR m * INR k / INR n + 2 * IZR m * PI) by (field; split; assumption).
+    apply cis_period_Z.
+Qed.
+
+Lemma rotate_whole_steps X n (m j1 j2 : Z) : (0 < n)%nat ->
+  idft2 (rotate_spectrum X n (IZR m * (2 * PI / INR n))) n j1 j2 = idft2 X n (j1 - m) (j2 - m).
+Proof.
+  intros Hn. assert (Hn0 : INR n <> 0) by (apply not_0_INR; lia).
+  unfold idft2. f_equal. apply csum_ext. intros k1 Hk1. apply csum_ext. intros k2 Hk2.
+  unfold rotate_spectrum.
+  replace (-2 * PI * (IZR (fftfreq_idx n k1) / (2 * PI) + IZR (fftfreq_idx n k2) / (2 * PI)) * (IZR m * (2 * PI / INR n)))
+    with (-2 * PI * (IZR (fftfreq_idx n k1) / (2 * PI)) * (IZR m * (2 * PI / INR n))
+          + -2 * PI * (IZR (fftfreq_idx n k2) / (2 * PI)) * (IZR m * (2 * PI / INR n))) by ring.
+  rewrite cis_add, !rotate_phase_index by assumption.
+  rewrite !minus_IZR.
+  replace (2 * PI * (IZR j1 - IZR m) * INR k1 / INR n)
+    with (-2 * PI * IZR m * INR k1 / INR n + 2 * PI * IZR j1 * INR k1 / INR n) by (field; assumption).
+  replace (2 * PI * (IZR j2 - IZR m) * INR k2 / INR n)
+    with (-2 * PI * IZR m * INR k2 / INR n + 2 * PI * IZR j2 * INR k2 / INR n) by (field; assumption).
+  rewrite !cis_add. ring.
+Qed.
+
+Lemma idft2_periodic X n (j1 j2 : Z) : (0 < n)%nat ->
+  idft2 X n (j1 + Z.of_nat n) j2 = idft2 X n j1 j2 /\ idft2 X n j1 (j2 + Z.of_nat n) = idft2 X n j1 j2.
+Proof.
+  intros Hn. assert (Hn0 : INR n <> 0) by (apply not_0_INR; lia).
+  unfold idft2. split; f_equal; apply csum_ext; intros k1 Hk1; apply csum_ext; intros k2 Hk2; f_equal; f_equal.
+  - rewrite plus_IZR, <- INR_IZR_INZ.
+    replace (2 * PI * (IZR j1 + INR n) * INR k1 / INR n) with (2 * PI * IZR j1 * INR k1 / INR n + 2 * INR k1 * PI)
+      by (field; assumption).
+    apply cis_period.
+  - rewrite plus_IZR, <- INR_IZR_INZ.
+    replace (2 * PI * (IZR j2 + INR n) * INR k2 / INR n) with (2 * PI * IZR j2 * INR k2 / INR n + 2 * INR k2 * PI)
+      by (field; assumption).
+    apply cis_period.
+Qed.
